@@ -9,6 +9,7 @@ from rustparse import TranslateError
 
 GENERATORS = {
     'vehicle': ('gen_vehicle', ['VehicleTab.v']),
+    'consts': ('gen_consts', ['NetConsts.v']),
 }
 
 def write_if_changed(path, text):
@@ -37,12 +38,18 @@ def main():
             changed = []
             for fn, text in files.items():
                 if write_if_changed(os.path.join(a.out, fn), text): changed.append(fn)
+            hfiles = info.pop('_harness', {}) if isinstance(info, dict) else {}
+            if a.harness_gen:
+                os.makedirs(a.harness_gen, exist_ok=True)
+                for fn, text in hfiles.items():
+                    if write_if_changed(os.path.join(a.harness_gen, fn), text): changed.append('harness:' + fn)
             if os.path.exists(marker): os.remove(marker)
             status[n] = {'ok': True, 'changed': changed, 'info': info}
         except (TranslateError, Exception) as e:
             for fn in outs:
-                p = os.path.join(a.out, fn)
-                if os.path.exists(p): os.remove(p)
+                for ext in ('', 'o', 'ok', 'os'):
+                    p = os.path.join(a.out, fn + ext)
+                    if os.path.exists(p): os.remove(p)
             with open(marker, 'w') as f: f.write(repr(e) + '\n' + traceback.format_exc())
             status[n] = {'ok': False, 'error': repr(e)}
     print(json.dumps(status))
